@@ -260,7 +260,9 @@ fn check_tokenisation(run: &mut Run, sub: &Subject, s: &str, ign: bool) -> Optio
 // ---------------------------------------------------------------------------------------------
 
 fn batch_case(sub: &Subject, items: &[&Item]) -> Value {
-    groups_case(&sub.case_cfg, &items.iter().map(|i| (i.s.as_str(), i.ign)).collect::<Vec<_>>())
+    // every item names the aggregation of its own grouping (a batch may mix them)
+    json!({"part": "groups", "config": sub.case_cfg, "items": items.iter().map(|i| json!({"s": i.s, "ignore_special_tokens": i.ign,
+        "aggregation": if matches!(i.grouping.1, GroupAggregation::Mean) { "mean" } else { "sum" }})).collect::<Vec<_>>()})
 }
 
 fn check_sparse(run: &mut Run, sub: &Subject, items: &[&Item]) {
@@ -306,13 +308,17 @@ fn check_sparse(run: &mut Run, sub: &Subject, items: &[&Item]) {
         if !v.is_finite() {
             return run.violation("weights", "", case(), format!("entry {e} has weight {v}"));
         }
-        if !sub.cfg.mean && v != 1.0 {
+        // (the aggregation is a property of each grouping, not of the batch)
+        if !matches!(items[b].grouping.1, GroupAggregation::Mean) && v != 1.0 {
             return run.violation("sum-weights-are-one", "", case(), format!("entry {e} (sequence {b}, group {g}, token {t}) has weight {v} under sum aggregation"));
         }
         sums[b][g] += v as f64;
     }
-    if sub.cfg.mean {
+    {
         for (b, row) in sums.iter().enumerate() {
+            if !matches!(items[b].grouping.1, GroupAggregation::Mean) {
+                continue;
+            }
             for (g, w) in row.iter().enumerate() {
                 if flat_len(&items[b].grouping.0[g]) > 0 && (w - 1.0).abs() > 1e-6 {
                     return run.violation("mean-weights-sum-to-one", "", case(), format!("weights of sequence {b}, group {g} ({:?}) sum to {w}", items[b].grouping.0[g]));
@@ -528,10 +534,16 @@ fn main() {
             run.evaluations += 1;
             check_tensorize(&mut run, task, &refs, pad, tpad, &|| tensorize_case(task, &refs, pad, tpad));
         } else if let Some(sub) = build(&mut run, &cfg_from(&c["config"])) {
+            // the same configuration with the other aggregation, for the items of a mixed batch
+            let mut other_cfg = cfg_from(&c["config"]);
+            other_cfg.mean = !other_cfg.mean;
+            let other = build(&mut run, &other_cfg);
             let mut items = vec![];
             for i in c["items"].as_array().unwrap() {
                 run.evaluations += 1;
-                items.extend(check_tokenisation(&mut run, &sub, i["s"].as_str().unwrap(), i["ignore_special_tokens"].as_bool().unwrap()));
+                let own = i["aggregation"].as_str().map(|a| (a == "mean") == sub.cfg.mean).unwrap_or(true);
+                let tok = if own { &sub } else { other.as_ref().expect("cannot build the twin configuration") };
+                items.extend(check_tokenisation(&mut run, tok, i["s"].as_str().unwrap(), i["ignore_special_tokens"].as_bool().unwrap()));
             }
             if !items.is_empty() {
                 let refs: Vec<&Item> = items.iter().collect();
@@ -606,16 +618,41 @@ fn main() {
     run.assumptions.push("SparseCoo::verif_parts (feature verif) returns the matrix fields unchanged".into());
 
     let subs: Vec<Subject> = cfgs.iter().filter_map(|c| build(&mut run, c)).collect();
+    // batches that mix groupings with mean and with sum aggregation (the aggregation belongs to each
+    // grouping): every ordered pair of short strings, one tokenised by a mean config, the other by the
+    // same config with sum, in both orders
+    {
+        let half = subs.len() / 2;
+        let shorts = tu_verif::enumerate::strings(&SIGMA, run.pick(2, 2));
+        run.bounds.insert("mixed_aggregation_phase".into(), json!(format!("all ordered pairs of the {} strings with at most 2 symbols x every config pair (mean, sum) x both orders", shorts.len())));
+        let long_units = tu_verif::enumerate::threshold_lengths(run.pick(8, 10)).len() as u64;
+        for (ia, a) in shorts.iter().enumerate() {
+            if !run.unit(units + long_units + ia as u64) {
+                continue;
+            }
+            for i in 0..half {
+                let (sm, ss) = (&subs[i], &subs[i + half]);
+                assert!(sm.cfg.mean && !ss.cfg.mean, "config order changed");
+                let Some(x) = check_tokenisation(&mut run, sm, a, false) else { continue };
+                for b in &shorts {
+                    let Some(y) = check_tokenisation(&mut run, ss, b, false) else { continue };
+                    run.evaluations += 1;
+                    check_sparse(&mut run, sm, &[&x, &y]);
+                    check_sparse(&mut run, sm, &[&y, &x]);
+                }
+            }
+        }
+    }
     // long texts: symbol counts around the powers of two a size threshold would sit at; every
     // tokenisation alone, and batched with a short and with another long text (padding)
     {
         let lens = tu_verif::enumerate::threshold_lengths(run.pick(8, 10));
-        run.bounds.insert("long_phase".into(), json!(format!("symbol counts {lens:?} x 4 repeated patterns x every config x ignore_special_tokens; each alone, with a one-symbol text and with the next pattern")));
+        run.bounds.insert("long_phase".into(), json!(format!("symbol counts {lens:?} x 5 repeated patterns x every config x ignore_special_tokens; each alone, with a one-symbol text and with the next pattern")));
         for (k, n) in lens.iter().enumerate() {
             if !run.unit(units + k as u64) {
                 continue;
             }
-            let texts: Vec<String> = [&["a"][..], &["a", "ä", "😀"][..], &["<pad>", "a", "\u{301}"][..], &["\r", "\n", "a"][..]].iter().map(|p| tu_verif::enumerate::repeat_symbols(p, *n)).collect();
+            let texts: Vec<String> = [&["a"][..], &["a", "ä", "😀"][..], &["<pad>", "a", "\u{301}"][..], &["\r", "\n", "a"][..], &["\u{915}", "\u{93f}", "a"][..]].iter().map(|p| tu_verif::enumerate::repeat_symbols(p, *n)).collect();
             for sub in &subs {
                 for ign in [false, true] {
                     let items: Vec<Item> = texts.iter().filter_map(|s| {
